@@ -112,6 +112,10 @@ def kernel_lines(cases):
     return out
 
 
+# the adaptive solver with options of its own (a step budget, tolerances, a largest step)
+SOLVER_OPTS = ['solve_ivp|{"mxstep": 40}', 'solve_ivp|{"rtol": 0.001, "atol": 0.001, "mxstep": 100}', 'solve_ivp|{"rtol": 0.001, "atol": 1e-05}']
+
+
 def run(tier, seed):
     n = tier_n(tier, 60, 600)
     g = gen.Gen(seed * 7919 + 19)
@@ -145,7 +149,7 @@ def run(tier, seed):
                 p["obs"].append({"obs": "run", "solver": "euler", "params": pv})
             p["obs"].append({"obs": "onestep", "params": pv, "t": t, "x": x})
             dyn = None if g.rng.random() < 0.6 else sorted(g.rng.sample(sorted(pv), g.rng.randint(0, len(pv))))
-            p["obs"].append({"obs": "traced_run", "solvers": ["euler", "rk4", "solve_ivp"], "param_sets": [pv, pv2], "dyn": dyn,
+            p["obs"].append({"obs": "traced_run", "solvers": ["euler", "rk4", "solve_ivp"] + ([SOLVER_OPTS[len(out) % len(SOLVER_OPTS)]] if len(out) % 4 == 0 else []), "param_sets": [pv, pv2], "dyn": dyn,
                              "t": t, "x": x})
         out.append(p)
     cases = kernel_cases(g.rng, 100 if tier == "quick" else 2000)
@@ -167,6 +171,8 @@ def run(tier, seed):
         for j, (a, b) in enumerate(zip(ref["obs"], tr["obs"])):
             if "traced" not in a and "traced" not in b:
                 continue
+            if "error" in b and "traced" not in b and str(b["error"]).startswith("domain: time limit"):
+                continue        # (the observation ran into the harness's time limit: not compared, see checklib.explore)
             if "error" in b and "traced" not in b:
                 extra.append(("traced execution fails: %s" % b["error"][:300], {"program": checklib.strip_meta(p), "obs": j}, True))
                 continue
